@@ -239,6 +239,8 @@ def run():
     body += """
 /-- Does guardrails.co reset `$output_rails_in_progress` when the output rails fail? (computed from the data above) -/
 def v2FlagResetOnFailure : Bool := resetsFlagOnFailure v2RunOutputRails || resetsFlagOnFailure v2BotSay
+/-- Does guardrails.co reset `$output_rails_in_progress` when a new user message arrives (both `_user_said` overrides)? -/
+def v2FlagResetOnUserMessage : Bool := resetsFlagOnUserMessage v2UserSaid && resetsFlagOnUserMessage v2UserSaidUnexpected
 /-- Do the shipped self-check rails stop after raising their rail exception? -/
 def selfCheckInputStopsV1 : Bool := excBranchStops "InputRailException" v1SelfCheckInput
 def selfCheckOutputStopsV1 : Bool := excBranchStops "OutputRailException" v1SelfCheckOutput
@@ -437,5 +439,58 @@ def _two_context_problems():
     return out
 
 
+LLMRAILS = "nemoguardrails/rails/llm/llmrails.py"
+
+
+def _call_state_problems():
+    """`Models/PipelineCall.lean` (`remember = false`): the state a call is HANDED is a value, the thing a call MUTATES is its own.
+      objFor false   <- llmrails.py::generate_async: a Colang 2.x state dict is decoded by `json_to_state(state["state"])`, unconditionally
+                        (a NEW object for every call), and nothing derived from `state` / `output_state` is kept on `self`;
+      callV1         <- llmrails.py: `generate_events(state_events + events, …)` (a new list), `_get_events_for_messages` works on a
+                        `.copy()` of the cache entry, runtime.py::generate_events on a copy of the list it is given; the cache / the
+                        output state are only written after the turn completed (no write inside a `try … finally` / `except`)."""
+    out = []
+
+    def need(cond, msg):
+        if not cond:
+            out.append("call-level model: " + msg)
+
+    try:
+        tree = parse(LLMRAILS)
+        fn = find_def(tree, "generate_async", cls="LLMRails")
+        dec = [n for n in ast.walk(fn) if isinstance(n, ast.If) and ast.unparse(n.test) == "isinstance(state, dict) and state.get('version', '1.0') == '2.x'"]
+        need(len(dec) == 1 and _stmts(dec[0].body) == ["state = json_to_state(state['state'])"] and not dec[0].orelse,
+             "llmrails.py::generate_async: a 2.x state dict is no longer decoded unconditionally by `state = json_to_state(state[\"state\"])` (every call must work on a NEW object)")
+        kept = []
+        for n in ast.walk(fn):
+            if isinstance(n, (ast.Assign, ast.AugAssign, ast.AnnAssign)):
+                tgts = n.targets if isinstance(n, ast.Assign) else [n.target]
+                for t in tgts:
+                    base = t
+                    while isinstance(base, (ast.Subscript, ast.Attribute)) and not (isinstance(base, ast.Attribute) and isinstance(base.value, ast.Name) and base.value.id == "self"):
+                        base = base.value
+                    if isinstance(base, ast.Attribute) and isinstance(base.value, ast.Name) and base.value.id == "self" and n.value is not None:
+                        names = {x.id for x in ast.walk(n.value) if isinstance(x, ast.Name)}
+                        if names & {"state", "output_state", "state_events", "runtime"} or base.attr not in ("explain_info", "events_history_cache"):
+                            kept.append(ast.unparse(n))
+        need(not kept, f"llmrails.py::generate_async keeps something of the call on the instance: {kept[:3]}")
+        cachew = [n for n in ast.walk(fn) if isinstance(n, ast.Assign) and any(ast.unparse(t).startswith("self.events_history_cache[") for t in n.targets)]
+        need(len(cachew) == 1 and ast.unparse(cachew[0]) == "self.events_history_cache[cache_key] = events", "llmrails.py::generate_async: the events cache is no longer written exactly once (`self.events_history_cache[cache_key] = events`)")
+        need(not any(isinstance(n, ast.Try) for n in ast.walk(fn)), "llmrails.py::generate_async now has a try statement (what does a failed call leave behind?)")
+        calls = [ast.unparse(n) for n in ast.walk(fn) if isinstance(n, ast.Call) and ast.unparse(n.func) == "self.runtime.generate_events"]
+        need(calls == ["self.runtime.generate_events(state_events + events, processing_log=processing_log)"], f"llmrails.py::generate_async: `generate_events` is no longer given the NEW list `state_events + events`: {calls}")
+        pe = [ast.unparse(n) for n in ast.walk(fn) if isinstance(n, ast.Call) and ast.unparse(n.func) == "runtime.process_events"]
+        need(pe == ["runtime.process_events(events, state=state, instant_actions=instant_actions, blocking=True)"], f"llmrails.py::generate_async: process_events call changed: {pe}")
+        g = find_def(tree, "_get_events_for_messages", cls="LLMRails")
+        reads = [ast.unparse(n) for n in ast.walk(g) if isinstance(n, ast.Assign) and "events_history_cache[" in ast.unparse(n.value)]
+        need(reads == ["events = self.events_history_cache[cache_key].copy()"], f"llmrails.py::_get_events_for_messages no longer works on a copy of the cache entry: {reads}")
+        rt = parse(RT1)
+        ge = [n for n in ast.walk(rt) if isinstance(n, ast.AsyncFunctionDef) and n.name == "generate_events"]
+        need(len(ge) == 1 and "events = events.copy()" in _stmts(ge[0].body), "runtime.py::generate_events no longer copies the event list it is given")
+    except TieBroken as e:
+        out.append(f"call-level model: {e}")
+    return out
+
+
 def static_tie():
-    return _dispatcher_problems() + _runtime_problems(RT1) + _runtime_problems(RT2) + _two_context_problems()
+    return _dispatcher_problems() + _runtime_problems(RT1) + _runtime_problems(RT2) + _two_context_problems() + _call_state_problems()
